@@ -244,6 +244,14 @@ def canon(r):
     return ("other", repr(r))
 
 
+def has_nested_undef(v):
+    if isinstance(v, list):
+        return any(x == UNDEF or has_nested_undef(x) for x in v)
+    if isinstance(v, dict):
+        return any(x == UNDEF or has_nested_undef(x) for x in v.values())
+    return False
+
+
 def impl_cell(cp, text, octx, mode):
     """-> ('ok', canon value) | ('err', kind)"""
     ctx = None if octx is None else py_ctx(octx)
@@ -277,7 +285,7 @@ def gen_value(rng, depth=2):
         if k < 0.55:
             return rng.choice(STRS)
         if k < 0.75:
-            return rng.choice([0, 1, 2, 3, -1, 7, 10, 123456789012])
+            return rng.choice([0, 1, 2, 3, -1, 7, 10, 41])
         if k < 0.9:
             return rng.choice([True, False])
         return None
@@ -965,8 +973,11 @@ def run(ctx):
                     # native template handing back an Undefined object: instantiation ends in RowParser
                     row_level_native(text, octx, "generated-native")
                 elif ir[0] == "ok":
-                    only_repr = set(tch) <= {"repr"}
-                    key = "undefined-inside-list-literal" if only_repr else "missing-name-renders"
+                    # an Undefined object that ends up INSIDE a container is never forced (neither by
+                    # repr() nor by handing the native list back): the known residual class
+                    in_container = set(tch) <= {"repr"} or has_nested_undef(ir[1]) \
+                        or (isinstance(ir[1], str) and "Undefined" in ir[1])
+                    key = "undefined-inside-list-literal" if in_container else "missing-name-renders"
                     fail(key, f"{text!r} touches {name!r} ({tch[0]}) but renders {ir[1]!r} when {name!r} is not defined",
                          dict(fn="spy", text=text, ctx=octx, mode=mode, name=name, produced=repr(ir[1])))
     stats["generated_cells"] = dist
